@@ -381,6 +381,8 @@ def PV(poly: Poly, shape: str = "atom") -> Obj:
     def binop(op, other, refl):
         po, so = lift(other)
         if po is None:
+            if isinstance(other, Obj) and other.kind != "value":
+                return NotImplemented          # a multivector (or another object with operators of its own) decides
             return NotImplemented if isinstance(other, Obj) and "binop" in other.methods and not refl else Unk("arith")
         a, sa, b, sb = (po, so, poly, shape) if refl else (poly, shape, po, so)
         if op == "Add":
@@ -407,8 +409,15 @@ def PV(poly: Poly, shape: str = "atom") -> Obj:
             return o
         return Unk("unop")
 
+    def compare(op, other):
+        po, _ = lift(other)
+        if po is None or op not in ("Eq", "NotEq"):
+            return NotImplemented
+        same = (poly - po).is_zero()          # identically equal, the zero test of kingdon's own polynomials
+        return same if op == "Eq" else not same
     o.methods["binop"] = binop
     o.methods["unop"] = unop
+    o.methods["compare"] = compare
     o.methods["truth"] = lambda: not poly.is_zero()
     return o
 
